@@ -606,12 +606,19 @@ theorem ASrc.encBody_eq (x : ASrc) : x.encBody = [x.version] ++ ([x.flags] ++ ([
 theorem Frames.getMem1 (b : Nat) : Frames (Pel.getMem 1) [b] [b] := Frames.getMem [b] (by simp)
 
 /-- the members `decodeSRC` builds before the callout subsection -/
-def srcMembers (T : Tables) (h : SecHdr) (creator : Text) (verB : Bytes) (flags wordCount : Nat) (words : List Nat)
+def srcEd (env : SrcEnv) (ascii : Text) (words : List Nat) : ErrDet :=
+  let srcType := ascii.take 2
+  let isBmc := srcType = s "BD" ∨ srcType = s "11"
+  let isHb := srcType = s "BC"
+  if isBmc ∨ isHb then errorDetails env.registry ascii words else .none
+
+def srcMembers (T : Tables) (env : SrcEnv) (h : SecHdr) (creator : Text) (verB : Bytes) (flags wordCount : Nat) (words : List Nat)
     (ascii : Text) : List (Text × J) :=
   let srcType := ascii.take 2
   let isBmc := srcType = s "BD" ∨ srcType = s "11"
   let isHb := srcType = s "BC"
   let w (i : Nat) : Nat := words.getD i 0
+  let ed : ErrDet := if isBmc ∨ isHb then errorDetails env.registry ascii words else .none
   let base : List (Text × J) := [
     kv "Section Version" (jnum h.ver), kv "Sub-section type" (jnum h.sub),
     kv "Created by" (jstr (displayCompID T h.comp creator)),
@@ -623,7 +630,7 @@ def srcMembers (T : Tables) (h : SecHdr) (creator : Text) (verB : Bytes) (flags 
     (if isBmc then [kv "Backplane CCIN" (jstr (fmtHex 4 (w 1 >>> 16))),
                     kv "Terminate FW Error" (boolStr (w 3 &&& 0x20000000 != 0))] else []) ++
     (if isBmc ∨ isHb then [kv "Deconfigured" (boolStr (w 3 &&& 0x02000000 != 0)),
-                           kv "Guarded" (boolStr (w 3 &&& 0x01000000 != 0))] else []) ++
+                           kv "Guarded" (boolStr (w 3 &&& 0x01000000 != 0))] ++ ed.members else []) ++
     [kv "Valid Word Count" (jstr (ox (fmtHex 2 wordCount))),
      kv "Reference Code" (jstr (stripSp ascii))]
   let idxs := (List.range (wordCount + 1)).drop 2
@@ -646,27 +653,35 @@ def srcFinish (env : SrcEnv) (creator : Text) (allowPlugins : Bool) (ascii : Tex
     | .unsupported => Rd.fail .unsupported
   else pure (.obj withCallouts, stripSp ascii)
 
-/-- what `decodeSRC` does after the fixed part -/
-def srcTail (T : Tables) (env : SrcEnv) (h : SecHdr) (creator : Text) (allow : Bool) (verB : Bytes) (flags wordCount : Nat)
+/-- what `decodeSRC` does after the fixed part, once the registry look-up has not raised -/
+def srcTail' (T : Tables) (env : SrcEnv) (h : SecHdr) (creator : Text) (allow : Bool) (verB : Bytes) (flags wordCount : Nat)
     (words : List Nat) (ascii : Text) : Rd (J × Text) :=
   if wordCount ≥ 10 then Rd.fail .other else
     ((if flags &&& 0x01 ≠ 0 then
         (decodeCallouts T env creator allow >>= fun c =>
-          pure (srcMembers T h creator verB flags wordCount words ascii ++ [kv "Callout Section" c]))
-      else pure (srcMembers T h creator verB flags wordCount words ascii)) >>=
+          pure (srcMembers T env h creator verB flags wordCount words ascii ++ [kv "Callout Section" c]))
+      else pure (srcMembers T env h creator verB flags wordCount words ascii)) >>=
       srcFinish env creator allow ascii (srcHexwords wordCount words))
+
+/-- what `decodeSRC` does after the fixed part -/
+def srcTail (T : Tables) (env : SrcEnv) (h : SecHdr) (creator : Text) (allow : Bool) (verB : Bytes) (flags wordCount : Nat)
+    (words : List Nat) (ascii : Text) : Rd (J × Text) :=
+  match srcEd env ascii words with
+  | .fail => Rd.fail .other
+  | .unsupported => Rd.fail .unsupported
+  | _ => srcTail' T env h creator allow verB flags wordCount words ascii
 
 theorem decodeSRC_eq (T : Tables) (env : SrcEnv) (h : SecHdr) (creator : Text) (allow : Bool) :
     decodeSRC T env h creator allow =
       (getMem 1 >>= fun verB => getInt 1 >>= fun flags => getInt 1 >>= fun _ => getInt 1 >>= fun wordCount =>
         getInt 2 >>= fun _ => getInt 2 >>= fun _ => getInts 4 8 >>= fun words => getText 32 >>= fun ascii =>
         srcTail T env h creator allow verB flags wordCount words ascii) := by
-  unfold decodeSRC srcTail
+  unfold decodeSRC srcTail srcTail' srcEd
   simp only [ite_bind]
   rfl
 
 /-- the members `renderSrc` prescribes before the callout subsection -/
-def srcSpecMembers (T : Tables) (h : AHdr) (creator : Text) (x : ASrc) : List (Text × J) :=
+def srcSpecMembers (T : Tables) (env : SrcEnv) (h : AHdr) (creator : Text) (x : ASrc) : List (Text × J) :=
   let w (i : Nat) : Nat := x.words.getD i 0
   let ty := x.ascii.take 2
   let isBmc := ty = s "BD" ∨ ty = s "11"
@@ -680,7 +695,10 @@ def srcSpecMembers (T : Tables) (h : AHdr) (creator : Text) (x : ASrc) : List (T
     (if isBmc then [kv "Backplane CCIN" (jstr (hexFix 4 (w 1 / 65536))),
                     kv "Terminate FW Error" (boolStr (w 3 / 2^29 % 2 = 1))] else []) ++
     (if isBmc ∨ isHb then [kv "Deconfigured" (boolStr (w 3 / 2^25 % 2 = 1)),
-                           kv "Guarded" (boolStr (w 3 / 2^24 % 2 = 1))] else []) ++
+                           kv "Guarded" (boolStr (w 3 / 2^24 % 2 = 1))] ++
+                          (match errorDetails env.registry x.ascii x.words with
+                            | .some ms => [kv "Error Details" (.obj ms)]
+                            | _ => []) else []) ++
     [kv "Valid Word Count" (jstr (ox (hexFix 2 x.wordCount))),
      kv "Reference Code" (jstr (stripSp x.ascii))] ++
     (((List.range (x.wordCount + 1)).drop 2).map fun i => (s "Hex Word " ++ natDec i, jstr (hexFix 8 (w (i - 2)))))
@@ -691,7 +709,7 @@ def srcSpecHexwords (x : ASrc) : List Text :=
   hexw ++ List.replicate (8 - hexw.length) (s "00000000")
 
 theorem renderSrc_eq (T : Tables) (env : SrcEnv) (h : AHdr) (creator : Text) (allow : Bool) (x : ASrc) :
-    renderSrc T env h creator allow x = .obj (srcSpecMembers T h creator x ++
+    renderSrc T env h creator allow x = .obj (srcSpecMembers T env h creator x ++
       (match x.callouts with
         | none => []
         | some cs => [kv "Callout Section" (.obj [kv "Callout Count" (jnum cs.callouts.length),
@@ -704,11 +722,40 @@ theorem renderSrc_eq (T : Tables) (env : SrcEnv) (h : AHdr) (creator : Text) (al
 
 theorem srcDisplayable_eq (env : SrcEnv) (creator : Text) (allow : Bool) (x : ASrc) :
     srcDisplayable env creator allow x =
+      (registryDisplayable env x &&
       (if !allow then true else
         match srcDetails env creator x.ascii (srcSpecHexwords x) with
         | .fail => false
         | .unsupported => false
-        | _ => true) := rfl
+        | _ => true)) := rfl
+
+theorem ErrDet.members_eq (e : ErrDet) :
+    e.members = (match e with | .some ms => [kv "Error Details" (.obj ms)] | _ => []) := by
+  cases e <;> rfl
+
+/-- a displayable SRC passes the registry step -/
+theorem srcTail_of_displayable (T : Tables) (env : SrcEnv) (h : SecHdr) (creator : Text) (allow : Bool) (verB : Bytes)
+    (flags : Nat) (x : ASrc) (hd : registryDisplayable env x = true) :
+    srcTail T env h creator allow verB flags x.wordCount x.words x.ascii =
+      srcTail' T env h creator allow verB flags x.wordCount x.words x.ascii := by
+  unfold srcTail srcEd
+  unfold registryDisplayable at hd
+  simp only [← or_assoc] at hd
+  split at hd
+  · rw [if_pos (by assumption)]
+    cases he : errorDetails env.registry x.ascii x.words <;> rw [he] at hd <;> simp at hd <;> rfl
+  · rw [if_neg (by assumption)]
+
+theorem srcTail_strict (T : Tables) (env : SrcEnv) (h : SecHdr) (creator : Text) (allow : Bool) (verB : Bytes)
+    (flags wordCount : Nat) (words : List Nat) (ascii : Text) (a : Bytes)
+    (hs : Strict (srcTail' T env h creator allow verB flags wordCount words ascii) a) :
+    Strict (srcTail T env h creator allow verB flags wordCount words ascii) a := by
+  unfold srcTail
+  cases srcEd env ascii words with
+  | none => exact hs
+  | some ms => exact hs
+  | fail => intro k _; exact ⟨_, rfl⟩
+  | unsupported => intro k _; exact ⟨_, rfl⟩
 
 theorem and_0x80 (n : Nat) : (n &&& 0x80 != 0) = decide (n / 128 % 2 = 1) := and_pow_ne_zero n 7
 theorem and_0x10 (n : Nat) : (n &&& 0x10 != 0) = decide (n / 16 % 2 = 1) := and_pow_ne_zero n 4
@@ -725,12 +772,13 @@ theorem getD_lt (ws : List Nat) (b : Nat) (hb : 0 < b) (h : ∀ w ∈ ws, w < b)
   | none => simpa using hb
   | some v => simpa using h v (List.mem_of_getElem? hi)
 
-theorem srcMembers_eq (T : Tables) (h : AHdr) (creator : Text) (x : ASrc) (hx : x.WF) (id len : Nat) :
-    srcMembers T (mkSecHdr id len h) creator [x.version] x.flags x.wordCount x.words x.ascii = srcSpecMembers T h creator x := by
+theorem srcMembers_eq (T : Tables) (env : SrcEnv) (h : AHdr) (creator : Text) (x : ASrc) (hx : x.WF) (id len : Nat) :
+    srcMembers T env (mkSecHdr id len h) creator [x.version] x.flags x.wordCount x.words x.ascii = srcSpecMembers T env h creator x := by
   obtain ⟨hv, hfh, hev, hr1, hwc, hr2, hsz, hwl, hwb, hal, haa, hcs⟩ := hx
   have hw : ∀ i, x.words.getD i 0 < 2^32 := getD_lt x.words _ (by omega) hwb
   unfold srcMembers srcSpecMembers
-  simp only [bytesHexL_single, and_0x80, and_0x10, and_0x04, and_bit29, and_bit25, and_bit24, and_0xFF, shr16, List.map_map]
+  simp only [bytesHexL_single, and_0x80, and_0x10, and_0x04, and_bit29, and_bit25, and_bit24, and_0xFF, shr16, List.map_map,
+    ErrDet.members_eq]
   rw [fmtHex_eq_hexFix 2 (x.words.getD 0 0 % 256) (by omega) (by omega),
     fmtHex_eq_hexFix 4 (x.words.getD 1 0 / 65536) (by have := hw 1; omega) (by omega),
     fmtHex_eq_hexFix 2 x.wordCount (by omega) (by omega)]
@@ -743,7 +791,9 @@ theorem srcMembers_eq (T : Tables) (h : AHdr) (creator : Text) (x : ASrc) (hx : 
     simp only [Function.comp]
     rw [fmtHex_eq_hexFix 8 _ (by have := hw (i - 2); omega) (by omega)]
   rw [e]
-  rfl
+  by_cases hc : (List.take 2 x.ascii = s "BD" ∨ List.take 2 x.ascii = s "11") ∨ List.take 2 x.ascii = s "BC"
+  · simp only [if_pos hc]; rfl
+  · simp only [if_neg hc]; rfl
 
 theorem srcHexwords_eq (x : ASrc) (hx : x.WF) : srcHexwords x.wordCount x.words = srcSpecHexwords x := by
   obtain ⟨hv, hfh, hev, hr1, hwc, hr2, hsz, hwl, hwb, hal, haa, hcs⟩ := hx
@@ -767,7 +817,8 @@ theorem srcFinish_ok (env : SrcEnv) (creator : Text) (allow : Bool) (x : ASrc)
           | .some j => [kv "SRC Details" j]
           | _ => [])
        else [])), stripSp x.ascii), st) := by
-  rw [srcDisplayable_eq] at hd
+  rw [srcDisplayable_eq, Bool.and_eq_true] at hd
+  replace hd := hd.2
   unfold srcFinish
   cases allow with
   | false => simp; rfl
@@ -828,9 +879,11 @@ theorem exact_SRC (T : Tables) (env : SrcEnv) (h : AHdr) (creator : Text) (allow
     (id len : Nat) (hd : srcDisplayable env creator allow x = true) (rest : Bytes) :
     decodeSRC T env (mkSecHdr id len h) creator allow (x.encBody ++ rest) =
       .ok ((renderSrc T env h creator allow x, stripSp x.ascii), rest) := by
-  rw [srcFixed_exact T env _ creator allow x hx rest, renderSrc_eq]
-  unfold srcTail
-  rw [if_neg (by have := hx.2.2.2.2.1; omega), srcMembers_eq T h creator x hx id len, srcHexwords_eq x hx]
+  have hreg : registryDisplayable env x = true := by
+    rw [srcDisplayable_eq, Bool.and_eq_true] at hd; exact hd.1
+  rw [srcFixed_exact T env _ creator allow x hx rest, renderSrc_eq, srcTail_of_displayable T env _ creator allow _ _ x hreg]
+  unfold srcTail'
+  rw [if_neg (by have := hx.2.2.2.2.1; omega), srcMembers_eq T env h creator x hx id len, srcHexwords_eq x hx]
   have hfl := x.flags_and1 hx
   have hcs := hx.2.2.2.2.2.2.2.2.2.2.2
   cases hc : x.callouts with
@@ -1084,7 +1137,8 @@ theorem strict_SRC (T : Tables) (env : SrcEnv) (h : AHdr) (creator : Text) (allo
   | none => exact Strict.nil _
   | some cs =>
     rw [hc] at hfl
-    unfold srcTail
+    apply srcTail_strict
+    unfold srcTail'
     rw [if_neg (by have := hx.2.2.2.2.1; omega), if_pos (by simpa using hfl)]
     exact Strict.bind_left _ (Strict.bind_left _ (decodeCallouts_strict T env creator allow cs (hcs cs (by simp [hc]))))
 
